@@ -117,11 +117,15 @@ def worker(seed, widx, nworkers, plan, scratch):
         for k, st_ in enumerate(H):
             if st_[0] == "send" and st_[2] in ("qsetinfo", "qdrop"):
                 plans.append(([k, k + 1], "AB"[(k + i) % 2]))
+        seen_plans = set()
         for positions, variant in plans:
+            if (tuple(positions), variant) in seen_plans:
+                continue
+            seen_plans.add((tuple(positions), variant))
             steps = with_restarts(H, positions, salt=i)
             res = _run(scratch, steps, ch, variant)
             n += 1
-            digest_dump(f"{i}@{positions}", res["digest"])
+            digest_dump(f"{i}@{positions}{variant}", res["digest"])
             st["runs"] += 1
             st["events"] += res["events"]
             st["sim_seconds"] += res["sim_seconds"]
